@@ -495,7 +495,7 @@ class SeriesOps:
         a0 = pos[0] if pos else None
         if name.startswith("builtins."):
             return self.builtin(short, pos, kw, node)
-        if name in ("functools.reduce", "reduce") and len(pos) in (2, 3) and isinstance(a0, (FuncRef, Obj)) and I._concrete_seq(pos[1]) is not None and not kw:
+        if name in ("functools.reduce", "reduce") and len(pos) in (2, 3) and (isinstance(a0, (FuncRef, Obj)) or (isinstance(a0, ExtMod) and a0.name.startswith("operator."))) and I._concrete_seq(pos[1]) is not None and not kw:
             # functools.reduce(f, xs[, init]) over a concrete sequence: the left fold
             seq = list(I._concrete_seq(pos[1]))
             if len(pos) == 3:
